@@ -24,7 +24,8 @@ RecOf(ph) == [bit |-> BitOf(ph), err |-> ph - Enc(BitOf(ph)), def |-> TRUE]
 Undef == [bit |-> 0, err |-> 0, def |-> FALSE]
 Fams == {"bin", "mux"}
 Classes == {"fresh", "deep", "noisy", "mid"}
-Stats0 == [f \in Fams |-> [c \in Classes |-> St0]]
+Lambdas == {80, 128}
+Stats0 == [lm \in Lambdas |-> [f \in Fams |-> [c \in Classes |-> St0]]]
 TInit == /\ l = 1 /\ reg = [r \in Regs |-> Undef] /\ plain = [r \in Regs |-> 0]
          /\ depth = [r \in Regs |-> 0] /\ noisy = [r \in Regs |-> FALSE] /\ stats = Stats0 /\ lambda = 0 /\ verdict = TRUE
 
@@ -39,22 +40,25 @@ MaxDepth(srcs) == CHOOSE m \in {depth[s] : s \in srcs} : \A s \in srcs : depth[s
 E14(ph) == (ph - Enc(BitOf(ph))) \div 1024                                    \* output error in units of 2^-14
 
 \* ---- acceptance regions of C02 (bounds in units of 2^-14; squares in 2^-28) ----
-B2(fam)  == IF lambda = 128 THEN (IF fam = "bin" THEN 3676 ELSE 6699) ELSE (IF fam = "bin" THEN 5931 ELSE 10808)
-B1(fam)  == IF lambda = 128 THEN (IF fam = "bin" THEN 61 ELSE 82) ELSE (IF fam = "bin" THEN 78 ELSE 104)
-Pool(f)  == [n  |-> stats[f]["fresh"].n + stats[f]["deep"].n + stats[f]["noisy"].n + stats[f]["mid"].n,
-             s1 |-> stats[f]["fresh"].s1 + stats[f]["deep"].s1 + stats[f]["noisy"].s1 + stats[f]["mid"].s1,
-             s2 |-> stats[f]["fresh"].s2 + stats[f]["deep"].s2 + stats[f]["noisy"].s2 + stats[f]["mid"].s2,
+\* bound(params): 0.0037 (128-bit set), 0.0047 (80-bit set), x1.35 for MUX, in units of 2^-14 (rounded up) and their squares
+B2(lm, fam)  == IF lm = 128 THEN (IF fam = "bin" THEN 3676 ELSE 6699) ELSE (IF fam = "bin" THEN 5931 ELSE 10808)
+B1(lm, fam)  == IF lm = 128 THEN (IF fam = "bin" THEN 61 ELSE 82) ELSE (IF fam = "bin" THEN 78 ELSE 104)
+Pool(lm, f)  == LET s == stats[lm][f] IN
+            [n  |-> s["fresh"].n + s["deep"].n + s["noisy"].n + s["mid"].n,
+             s1 |-> s["fresh"].s1 + s["deep"].s1 + s["noisy"].s1 + s["mid"].s1,
+             s2 |-> s["fresh"].s2 + s["deep"].s2 + s["noisy"].s2 + s["mid"].s2,
              mx |-> 0]
-SegmentOK == \A f \in Fams :
-    /\ SdAtMost(Pool(f), B2(f)) /\ MeanSmall(Pool(f), B1(f))
-    /\ \A c \in Classes : SdAtMost(stats[f][c], B2(f)) /\ MeanSmall(stats[f][c], B1(f))
-    /\ SameVar(stats[f]["fresh"], stats[f]["deep"]) /\ SameVar(stats[f]["fresh"], stats[f]["noisy"]) /\ SameVar(stats[f]["deep"], stats[f]["noisy"])
+SegmentOK == \A lm \in Lambdas, f \in Fams : LET s == stats[lm][f] IN
+    /\ SdAtMost(Pool(lm, f), B2(lm, f)) /\ MeanSmall(Pool(lm, f), B1(lm, f))
+    /\ \A c \in Classes : SdAtMost(s[c], B2(lm, f)) /\ MeanSmall(s[c], B1(lm, f))
+    /\ SameVar(s["fresh"], s["deep"]) /\ SameVar(s["fresh"], s["noisy"]) /\ SameVar(s["deep"], s["noisy"])
 
 TKey == /\ Ev.e = "Key"
-        /\ verdict' = (verdict /\ (lambda = 0 \/ SegmentOK))
-        /\ lambda' = Ev.lambda /\ stats' = Stats0
+        /\ Ev.lambda \in Lambdas /\ lambda' = Ev.lambda /\ UNCHANGED <<stats, verdict>>
         /\ reg' = [r \in Regs |-> Undef] /\ plain' = [r \in Regs |-> 0] /\ depth' = [r \in Regs |-> 0] /\ noisy' = [r \in Regs |-> FALSE]
-TEnd == /\ Ev.e = "End" /\ verdict' = (verdict /\ SegmentOK) /\ UNCHANGED <<reg, plain, depth, noisy, stats, lambda>>
+Summary(lm, f) == LET p == Pool(lm, f) IN IF p.n = 0 THEN <<0, 0, 0>> ELSE <<p.n, Mean(p), Var(p)>>
+TEnd == /\ Ev.e = "End" /\ verdict' = (verdict /\ SegmentOK)
+        /\ PrintT("STATS n/mean/var(2^-14 units) " \o ToString(<<"80bin", Summary(80, "bin"), "80mux", Summary(80, "mux"), "128bin", Summary(128, "bin"), "128mux", Summary(128, "mux")>>)) /\ UNCHANGED <<reg, plain, depth, noisy, stats, lambda>>
 TLoad == /\ Ev.e = "Load" /\ Frame(Ev.d)
          /\ LoadTo(Ev.d, Ev.bit, RecOf(Ev.out))
          /\ depth' = [depth EXCEPT ![Ev.d] = 0] /\ noisy' = [noisy EXCEPT ![Ev.d] = (Ev.inj # 0)]
@@ -62,10 +66,10 @@ TLoad == /\ Ev.e = "Load" /\ Frame(Ev.d)
 TGate == /\ Ev.e = "Gate" /\ Frame(Ev.d)
          /\ LET o == RecOf(Ev.out) IN
             CASE Ev.g \in Bin  -> /\ GateBinTo(Ev.g, Ev.d, Ev.a, Ev.b, o)
-                                  /\ stats' = [stats EXCEPT !["bin"][ClassOf({Ev.a, Ev.b})] = Upd(@, E14(Ev.out))]
+                                  /\ stats' = [stats EXCEPT ![lambda]["bin"][ClassOf({Ev.a, Ev.b})] = Upd(@, E14(Ev.out))]
                                   /\ depth' = [depth EXCEPT ![Ev.d] = MaxDepth({Ev.a, Ev.b}) + 1]
               [] Ev.g = "MUX"  -> /\ GateMuxTo(Ev.d, Ev.a, Ev.b, Ev.c, o)
-                                  /\ stats' = [stats EXCEPT !["mux"][ClassOf({Ev.a, Ev.b, Ev.c})] = Upd(@, E14(Ev.out))]
+                                  /\ stats' = [stats EXCEPT ![lambda]["mux"][ClassOf({Ev.a, Ev.b, Ev.c})] = Upd(@, E14(Ev.out))]
                                   /\ depth' = [depth EXCEPT ![Ev.d] = MaxDepth({Ev.a, Ev.b, Ev.c}) + 1]
               [] Ev.g = "NOT"  -> GateNotTo(Ev.d, Ev.a, o) /\ depth' = [depth EXCEPT ![Ev.d] = depth[Ev.a]] /\ UNCHANGED stats
               [] Ev.g = "COPY" -> GateCopyTo(Ev.d, Ev.a, o) /\ depth' = [depth EXCEPT ![Ev.d] = depth[Ev.a]] /\ UNCHANGED stats
